@@ -206,7 +206,11 @@ def nontrivial(c, ir):
 
 # ---------------------------------------------------------------- measurement
 _count = [0]
+_cap = [10 ** 12]
 _mon = [False]
+class LineBudget(BaseException):
+    """raised from the line callback when a call has executed 4x its allowance: the verdict does not depend on wall-clock
+    time (a loaded machine must not turn slow-but-bounded work into an alarm)"""
 def _setup_monitor():
     if _mon[0]:
         return
@@ -220,6 +224,8 @@ def _setup_monitor():
     def on_line(code, line):
         if code.co_filename.startswith(prefix):
             _count[0] += 1
+            if _count[0] > _cap[0]:
+                raise LineBudget()
         else:
             return mon.DISABLE
     mon.register_callback(tool, mon.events.LINE, on_line)
@@ -238,6 +244,7 @@ def measured(t, data):
     tracemalloc.reset_peak()
     base_mem = tracemalloc.get_traced_memory()[0]
     _count[0] = 0
+    _cap[0] = 4 * (LINES_PER_BYTE * (len(data) + declared(t, data)) + LINES_CONST)
     mon.set_events(mon.PROFILER_ID, mon.events.LINE)
     status = 'ok'
     try:
@@ -246,6 +253,8 @@ def measured(t, data):
         status = 'recursion'
     except MemoryError:
         status = 'memory'
+    except LineBudget:
+        status = 'linecap'
     except BaseException as e:
         if type(e).__name__ == 'Timeout':
             status = 'timeout'
@@ -260,7 +269,7 @@ def measured(t, data):
     return {'status': status, 'lines': _count[0], 'peak': peak}
 
 def run_impl(c):
-    return call_impl(measured, c['t'], c['data'], timeout=20)
+    return call_impl(measured, c['t'], c['data'], timeout=300)
 
 MODEL_FN = {'cas': 'parse_cas', 'lctx': 'parse_lctx', 'lnam': 'parse_lnam', 'vwlb': 'parse_vwlb', 'vwcf': 'parse_vwcf',
             'vwsc': 'parse_vwsc_file', 'snd': 'snd_to_sampled', 'clut': 'clut2palette', 'clutrgb': 'clut2rgb', 'fmap': 'parse_fmap',
@@ -317,7 +326,7 @@ def oracle(c, ir):
     t, data = c['t'], c['data']
     decl = declared(t, data)
     if ir[0] == 'timeout':
-        return '%s: no result after 20 s on %d bytes (does not terminate in bounded time)' % (t, len(data))
+        return '%s: no result after 300 s on %d bytes (does not terminate in bounded time)' % (t, len(data))
     if ir[0] != 'ok':
         return '%s: %r' % (t, ir[1:])
     r = ir[1]
